@@ -102,6 +102,11 @@ func ID(name string) b6.FeatureID {
 		}
 		return b6.FeatureIDInvalid
 	}
+	if n >= 80 && name[0] == 'P' {
+		// points numbered from 80 are OSM nodes: the compact format codes references to points of THAT namespace
+		// (the "primary" one of every path block) as deltas, all other namespaces verbatim
+		return b6.FeatureID{Type: b6.FeatureTypePoint, Namespace: b6.NamespaceOSMNode, Value: uint64(1000 + n)}
+	}
 	if n >= 50 {
 		// names numbered from 50 live in a second namespace that sorts BEFORE the first while their values are
 		// larger: ID order (type, namespace, value) and value order disagree
@@ -129,6 +134,9 @@ func Name(id b6.FeatureID) string {
 	}
 	if id.Namespace == Namespace && id.Value >= 1 && letterOf(id.Type) != "?" {
 		return letterOf(id.Type) + strconv.Itoa(int(id.Value-1))
+	}
+	if id.Namespace == b6.NamespaceOSMNode && id.Type == b6.FeatureTypePoint && id.Value >= 1080 {
+		return "P" + strconv.Itoa(int(id.Value-1000))
 	}
 	if id.Namespace == Namespace2 && id.Value >= 1050 && letterOf(id.Type) != "?" {
 		return letterOf(id.Type) + strconv.Itoa(int(id.Value-1000))
